@@ -39,6 +39,23 @@ theorem bosOverflow_frame (cfg : Cfg) (dest b ext : Nat) (st : St)
   · exact ⟨hf.mapped.trans hm, hf.rd.trans hr, hf.wr.trans hwr, hf.strays.trans hst,
       fun a ha => (hf.frame a ha).trans (by rw [hd])⟩
 
+/-- `CHK_DEST_OVR_CLEAR` with `dmax` beyond a known object size `b` (ANY `b`, also 0), all `dmax` cells writable:
+returns `mk code` and writes inside `dest[0..dmax)` only -/
+theorem chkDmaxClearG_over_frame {α : Type} (mk : Nat → α) (cfg : Cfg) (dest dmax b : Nat) (k : Prog α) (st : St)
+    (hall : ∀ a, st.mapped a = true ∧ st.rd a = true) (hrw : RW st dest dmax) (hbd : b < dmax) :
+    ∃ code st', exec (chkDmaxClearG mk cfg dest dmax (some b) RSIZE_MAX_STR k) st = .ok (mk code, st') ∧
+      FramePost dest dmax st st' := by
+  have hpos : 0 < dmax := by omega
+  unfold chkDmaxClearG
+  simp only
+  rw [if_pos hbd]
+  by_cases hx : dmax > RSIZE_MAX_STR
+  · rw [if_pos hx]
+    obtain ⟨s1, he1, hf1, _⟩ := handleError_frame cfg dest b dmax ESLEMAX st hrw hpos (by omega)
+    exact ⟨ESLEMAX, s1, by simp [exec_bind, he1], hf1⟩
+  · rw [if_neg hx]
+    obtain ⟨s1, he1, hf1⟩ := bosOverflow_frame cfg dest b dmax st hall hrw hpos (by omega) (by omega)
+    exact ⟨EOVERFLOW, s1, by simp [exec_bind, he1], hf1⟩
 /-- `CHK_DEST_NULL; CHK_DMAX_ZERO; CHK_DMAX_MAX / CHK_DEST_OVR_CLEAR` in front of a body -/
 theorem entryN (cfg : Cfg) (dest dmax : Nat) (destbos : Bos) (st : St) (k : Prog Nat)
     (Q : Nat → St → Prop) (hall : ∀ a, st.mapped a = true ∧ st.rd a = true)
